@@ -1595,6 +1595,12 @@ func (e *CoreExtension) filterLast(value interface{}, args ...interface{}) (inte
 			return rv.Index(rv.Len() - 1).Interface(), nil
 		}
 		return nil, nil
+	case reflect.Map:
+		// the last value in the order in which loops, keys and first visit the map
+		if keys := sortedMapKeys(rv); len(keys) > 0 {
+			return rv.MapIndex(keys[len(keys)-1]).Interface(), nil
+		}
+		return nil, nil
 	}
 
 	return nil, fmt.Errorf("cannot get last element of %T", value)
